@@ -77,6 +77,11 @@ def run():
     c.bounded["never_modified_on_error"] = {"evaluations": 4, "distinct_nontrivial": 4, "rule": "real CLI --fix (with/without --backup) on a file with a syntax error and on a good file with an invalid configuration (unknown rule, deprecated rule): bytes, inode, mtime and mode unchanged"}
     for p in probs[:1]:
         c.findings.append(Finding("bounded", "error-path", p, {"observed": p}, p[:80]))
+    bres = corpus.pmap(faults.backup_case, sorted(faults.BACKUP_INPUTS), chunksize=1)
+    c.bounded["backup_is_a_copy"] = {"evaluations": 2 * len(bres), "distinct_nontrivial": 2 * len(bres), "rule": "real CLI --fix --backup on files with LF / CRLF / CR line ends, without a final newline, with Latin-1 and multi-byte UTF-8 bytes, with trailing blanks, each with and without a linesep configuration: <file>.bak is byte-identical to the original and keeps its mode"}
+    for name, probs2 in bres:
+        for p in probs2[:1]:
+            c.findings.append(Finding("bounded", "backup", p, {"input": name, "bytes": repr(faults.BACKUP_INPUTS[name]), "observed": p, "how_to_rerun": "cd /verif && /venv/bin/python -c 'from bounded import faults; print(faults.backup_case(%r))'" % name}, name))
     # an obligation that fails without a solver model is replayed by the fault enumeration: attach the scenario
     for f in c.findings:
         if f.kind == "obligation" and not f.found_input and bad:
